@@ -14,6 +14,8 @@ pub fn rand_scalar(p: &mut Prng, modulus: &BigUint) -> BigUint {
 
 pub fn edge_scalars() -> Vec<BigUint> {
     let n = &r9::params().n;
+    let r: BigUint = (BigUint::one() << 256) % n;
+    let rinv = r.modinv(n).unwrap();
     vec![
         BigUint::one(),
         BigUint::from(2u32),
@@ -30,6 +32,12 @@ pub fn edge_scalars() -> Vec<BigUint> {
         r9::hexn("00000000000000010000000000000000FFFFFFFFFFFFFFFF0000000000000000"),
         r9::hexn("7FFFFFFFFFFFFFFFFFFFFFFFFFFFFFFFFFFFFFFFFFFFFFFFFFFFFFFFFFFFFFFFFF"),
         n - (BigUint::one() << 128),
+        // boundary words as Montgomery representation mod N: k = w R^-1 and k = w R^-1 - 1, and R mod N itself
+        rinv.clone(),
+        (&rinv + n - 1u32) % n,
+        (&rinv * 2u32) % n,
+        r.clone(),
+        &r - 1u32,
     ]
     .into_iter()
     .filter(|k| k < &(n - 1u32))
